@@ -8,11 +8,20 @@ CONFIG = {
                   "of 16-bit wraps) with fates delivered / query lost / answer lost / duplicated / older query replayed, all starting "
                   "sequence numbers, all mtu > 0. The model is tied to util.InQueue/OutQueue by regenerated facts (MaxCachedChunks, both "
                   "trimming slice expressions, window loop bounds, ack offset) and by running whole histories on the real queues "
-                  "(real OutQueue.Write in a goroutine, real Append/UpdateAcked/NextChunk/Read) and comparing state + per-exchange trace.",
+                  "(real OutQueue.Write in a goroutine, real Append/UpdateAcked/NextChunk/Read) and comparing state + per-exchange trace. "
+                  "What Write REPORTS is tied to what C07_safety calls accepted: C07_write_reports_enqueued / C07_reads_prefix_of_reported "
+                  "(model SA.DnsWrites: fragment loop of OutQueue.Write with its callback, 5-try SendAndReceive, poll, parked Writes, any "
+                  "fate script, any history; every step is an SA.Queue event) prove accepted = first Sum-n bytes of the caller's stream "
+                  "(the caller continues with b[n:]) and released-at-server is a prefix of it, from the regenerated position of "
+                  "`n += len(data)` relative to the error return (c07WriteCount); C07_witness_count_after_return is the kernel-checked "
+                  "counter-example for the other order. Tied by the dnswrites component: histories of several Writes on the real "
+                  "ClientDnsConnection / ServerDnsListener with failures part-way, polls and reads.",
     "level_note": "Partial: (1) the theorems are about the queue pair and a queue-level transcription of SendAndReceive/packet; the "
                   "5-try retry loop of SendAndReceive is modelled and proved separately for one fragment (C07_loss_absorbed, tied by the "
                   "dnsretry component on the real ClientDnsConnection/ServerDnsListener with a scripted communicator); timers, the poll "
-                  "goroutine, the serializer over whole histories and real UDP are not in the model. (2) Hypothesis WellBounded: chunks per Write + replay age + "
+                  "goroutine's timer, and real UDP are not in the model (the poll loop's body and the serializer are driven by dnswrites). "
+                  "C07_write_reports_enqueued covers the client's accounting; the server->client accounting has no error path (no callback) "
+                  "and is checked by the dnswrites monitor only. (2) Hypothesis WellBounded: chunks per Write + replay age + "
                   "MaxCachedChunks + 3 <= 65536; the excluded point (a query replayed >= 65409 exchanges late) corrupts the stream on "
                   "the real code and is recorded as open finding C07-late-replay. (3) Eventual delivery is checked by the monitor on "
                   "the implementation (loss-free tail drains both queues) but NOT proved in Lean; C07_witness_wrap (Lean counter-example "
@@ -21,7 +30,8 @@ CONFIG = {
                   "Trusted: Lean kernel, the hand-written model SA.Model.Queue and the sampled correspondence, sequential writer per end.",
     "technique": "Lean 4 proof (invariant over ghost chunk indices, induction over event histories) + model/code differential correspondence",
     "components": [{"name": "queue", "timeout": {"quick": 600, "thorough": 1500}},
-                   {"name": "dnsretry", "timeout": {"quick": 300, "thorough": 600}}],
+                   {"name": "dnsretry", "timeout": {"quick": 300, "thorough": 600}},
+                   {"name": "dnswrites", "timeout": {"quick": 300, "thorough": 600}}],
     "rule": "queue: one op = one whole history on real InQueue/OutQueue pairs of two endpoints; enumerated: 5x5 starting sequence "
             "numbers {0,127,128,65408,65535} x 8 single-fault patterns, 5 mtus x 7 write-size classes {0,1,mtu-1,mtu,mtu+1,3mtu,3mtu+1}, "
             "8 wrap-crossing histories (start near 65535, > 2*MaxCachedChunks packets, with and without faults), one 66000-packet "
@@ -31,13 +41,22 @@ CONFIG = {
             "future-drain, duplicate and error branches); non-trivial = at least one chunk written and one byte released; "
             "distinct = distinct op line; class = set of branch/outcome flags reached. dnsretry: one real Write of a 1..8-byte "
             "fragment under scripted communicator outcomes: 0..6 leading losses x {query lost, answer lost, sentinel} x "
-            "{nothing, ok, other error} enumerated + 60 (300) random scripts of <= 6 outcomes",
+            "{nothing, ok, other error} enumerated + 60 (300) random scripts of <= 6 outcomes. dnswrites: one op = a history of "
+            "several application writes (the caller continues with b[n:]), polls and reads on the real client/server pair under a "
+            "script of communicator fates; enumerated: 3 fragment sizes x 1..4 fragments x failing fragment first/middle/last x "
+            "{ql,al,st} x {5 losses, 4 losses} + other error, each with poll-then-continue and continue-at-once (Write parks, poll "
+            "releases it); double failures incl. inside a resumed Write at starts 65534/65535; passed write deadline; server->client "
+            "writes of {0,1,mtu,mtu+1,3mtu,3mtu+1} bytes with losses on the polls; 150 (900) random histories of <= 11 events; "
+            "monitor after every event: released-at-peer is a prefix of the first Sum-n stream bytes; after a loss-free tail: equal",
     "trusted_base": COMMON_TB + ["model SA.Model.Queue hand-written; tied by regenerated facts SA.Gen.c07* and per-history comparison of "
                                  "queue states (next, out seqs, both acked lists, future, buffer digest), released/accepted digests and "
                                  "the per-event trace (ack, seq, payload, error class, Write completion)",
                                  "exchange glue in go/harness/c07_queue.go transcribes SendAndReceive/packet at queue level",
                                  "model SA.Model.DnsExchange (retry loop) tied by regenerated facts (tries, timeout test, QueryWithData "
-                                 "wrapping) and by the dnsretry component (queries issued, n, error class, server buffer)"],
+                                 "wrapping) and by the dnsretry component (queries issued, n, error class, server buffer)",
+                                 "model SA.Model.DnsWrites (Write's fragment loop + callback + poll + parked Writes over SA.Queue events) tied by "
+                                 "the regenerated fact c07WriteCount and by the dnswrites component (per-event n / error class / parked, "
+                                 "Sum n, digests of everything released at both ends, queued sequence numbers, communicator calls)"],
     "assumptions": ["one sequential writer per endpoint (a Write is issued after the previous one returned)",
                     "mtu > 0 (mtu = 0 makes OutQueue.Write loop forever: outside C07)",
                     "WellBounded: chunks per Write + replay age + MaxCachedChunks + 3 <= 65536",
